@@ -1,7 +1,7 @@
 META = {
     "level": "fault_enumeration",
     "technique": "TLA+ model of the packet layer with an attacker on the ciphertext stream (PacketLayer.tla: Flip per region, DelByte, InsByte, Drop, Replay, Swap, Cut) model-checked by TLC; every single attack (and sampled double attacks) enumerated by TLC rendered to byte edits of recorded ciphertext of every framing class and run through the real read_message; every byte position of recorded streams flipped / deleted / inserted / truncated; random multi-fault edits; all runs judged by the trace spec",
-    "text": "TLC proves on the model that with MAC/tag verification over (keys, sequence number, whole packet) the delivered messages are always an alien-free prefix of the sent ones and that nothing is delivered after the first bad packet, for all placements of <= 2 attacker actions, and that dropping the MAC check or the sequence number from the MAC breaks this; real encrypted streams (6 packets incl. a key switch, recorded from a real sender for each of the 44 framing classes: CTR/CBC/3DES x full, truncated, encrypt-then-MAC x AES-GCM x zlib) are edited - TLC-enumerated (packet, region) attacks, every byte position (flip with mask 01, 80 or FF - all three for every fifth class -, delete, insert, cut), packet drop/replay/swap and seeded multi-fault edits - and fed to a fresh real receiver; TLC checks each run: property clause = what was handed up is an unmodified prefix of what was sent; conformance clause = exactly the model's outcome",
+    "text": "TLC proves on the model that with MAC/tag verification over (keys, sequence number, whole packet) the delivered messages are always an alien-free prefix of the sent ones and that nothing is delivered after the first bad packet, for all placements of <= 2 attacker actions and every sequence of verification modes (MAC compared after / before decryption) of the key epochs, and that dropping the MAC check, the sequence number from the MAC, or deciding the verification mode from an earlier epoch breaks this; real encrypted streams (6 packets incl. a key switch that changes the algorithms - etm -> classic, aead -> classic, classic -> etm ... - on the same pair of Packetizers, recorded from a real sender for each of the 44 framing classes: CTR/CBC/3DES x full, truncated, encrypt-then-MAC x AES-GCM x zlib) are edited - TLC-enumerated (packet, region) attacks, every byte position (flip with mask 01, 80 or FF - all three for every fifth class -, delete, insert, cut), packet drop/replay/swap and seeded multi-fault edits - and fed to a fresh real receiver; TLC checks each run: property clause = what was handed up is an unmodified prefix of what was sent; conformance clause = exactly the model's outcome",
     "note": "trusted: TLC, the in-memory socket, message identification by byte equality, the independent packet reader used only to name the region an edited byte lies in; edits of the plaintext first NEWKEYS are outside 'once encryption is active'; how the receiver fails (exception class) is recorded but not judged here (C38)",
 }
 import collections
@@ -10,9 +10,12 @@ import random
 from harness.core import cfg_text, Machinery, run_tlc
 from harness.drivers import packet as P
 
-BASE = {"SeqMod": 4, "MaxSwitch": 1, "MaxChunk": 4, "Stricts": "@{TRUE, FALSE}", "Zlibs": "@{TRUE, FALSE}", "Mutations": set()}
+BASE = {"SeqMod": 4, "MaxSwitch": 1, "MaxChunk": 4, "Stricts": "@{TRUE, FALSE}", "Zlibs": "@{TRUE, FALSE}", "Mutations": set(),
+        "Modes": {"classic", "etm"}, "Partial": False}
+ALL_MODES = {"classic", "etm", "aead"}
 INV = ["TypeOK", "PrefixOnly", "NoAlien", "AllDelivered", "NeverFailsHonest", "Caught"]
-MUTANTS = {"nomac", "noseq"}     # receiver without MAC check / MAC without the sequence number
+# receiver without MAC check / MAC without the sequence number / "MAC compared after decryption" decided in an earlier epoch
+MUTANTS = {"nomac", "noseq", "stalemode"}
 SCRIPTS = {1: "SSKSS", 2: "SKSKS", 3: "SSSS", 4: "KSSSKS"}
 MASKS = (0x01, 0x80, 0xFF)
 
@@ -25,7 +28,8 @@ def vkey(clause, suite, op):
 def semantic_region(rec, pk, off):
     """the leftmost plaintext field whose value an edit of ciphertext byte `off` changes.  With a CBC cipher and
     an encrypted length field (classic framing) any change in the first cipher block changes the length."""
-    if rec.info["mode"] == "classic" and "-cbc" in rec.suite[0] and off < rec.info["bsize"]:
+    info = P.suite_info(pk.suite)
+    if info["mode"] == "classic" and "-cbc" in pk.suite[0] and off < info["bsize"]:
         return "length"
     return pk.region_of(off)
 
@@ -62,16 +66,22 @@ class Runner:
         ev_r, delivered, term = P.run_receiver(rec, body)
         ev = rec.events() + [{"a": op, "i": i, "r": r, "got": 0, "seq": -1} for op, i, r in spec_edits] + ev_r \
             + [{"a": "End", "i": 0, "r": "", "got": 0, "seq": -1}]
-        self.batch.append({"strict": rec.strict, "zlib": rec.info["zlib"], "ev": ev})
-        m = {"stage": stage, "suite": "/".join(rec.suite), "strict": rec.strict, "script": "".join(rec.script),
+        self.batch.append({"strict": rec.strict, "zlib": rec.info["zlib"], "mode0": P.mode_of(rec.suite), "ev": ev})
+        # the packet the first edit lands in tells which algorithms were attacked, and after which earlier epochs
+        hit = rec.pkts[min(spec_edits[0][1], len(rec.pkts)) - 1] if spec_edits else rec.pkts[-1]
+        earlier = [P.mode_of(x) for x in rec.suites[:hit.epoch - 1]]
+        m = {"stage": stage, "suite": "/".join(hit.suite), "epoch": hit.epoch, "after": "+".join(earlier) or "-",
+             "epochs": ["/".join(x) for x in rec.suites], "strict": rec.strict, "script": "".join(rec.script),
              "edits": [list(e) for e in spec_edits], "bytes": [list(x) for x in concrete], "delivered": delivered, "terminal": term}
         self.meta.append(m)
         self.terminals[term] += 1
         for op, i, r in spec_edits:
             self.ops[op] += 1
             if op == "Flip":
-                self.regions_hit[P.framing_class(rec.suite)].add(r)
-        cls = P.framing_class(rec.suite)
+                pk_hit = rec.pkts[min(i, len(rec.pkts)) - 1] if len(spec_edits) == 1 else hit
+                self.regions_hit[P.framing_class(pk_hit.suite)].add(r)
+                self.regions_hit[P.mode_of(pk_hit.suite)].add(r)
+        cls = (P.framing_class(hit.suite), m["after"])
         self.c.case(key=(stage, cls, rec.strict, "".join(rec.script), tuple(map(tuple, concrete))),
                     sample=m if len(self.c.samples) < 6 and len(self.batch) % 977 == 1 else None)
         if len(self.batch) >= 9000:
@@ -81,7 +91,7 @@ class Runner:
         if not self.batch:
             return
         c = self.c
-        consts = dict(BASE, NMsgs=100000, SeqMod=1073741824, MaxSwitch=1000, MaxChunk=1000, MaxTamper=1000)
+        consts = dict(BASE, NMsgs=100000, SeqMod=1073741824, MaxSwitch=1000, MaxChunk=1000, MaxTamper=1000, Modes=ALL_MODES)
         res, _ = c.trace("PacketLayer_Trace", self.batch, cfg_text(spec="TSpec", constants=consts, invariants=["Report"]))
         if {d[1] for d in res["DONE"]} != set(range(1, len(self.batch) + 1)):
             raise Machinery("trace validation consumed %d of %d traces" % (len({d[1] for d in res["DONE"]}), len(self.batch)))
@@ -91,9 +101,13 @@ class Runner:
             m = meta[tid - 1]
             suite = tuple(m["suite"].split("/"))
             ops = "+".join(sorted({e[0] + ("." + e[2] if e[2] else "") for e in m["edits"]}))
-            return (vkey(clause, suite, ops),
-                    "%s strict=%s stream %s: after %s (bytes %s) the receiver delivered %s and ended with %s: clause %s fails at event %d"
-                    % (m["suite"], m["strict"], m["script"], m["edits"], m["bytes"], m["delivered"], m["terminal"], clause, row[2]), m)
+            key = vkey(clause, suite, ops)
+            if m["epoch"] > 1 and m["after"].split("+")[-1] != P.mode_of(suite):
+                key += ":after-" + m["after"].split("+")[-1]
+            return (key,
+                    "%s (key epoch %d of this Packetizer, earlier epochs: %s) strict=%s stream %s: after %s (bytes %s) the receiver delivered %s and ended with %s: clause %s fails at event %d"
+                    % (m["suite"], m["epoch"], m["after"], m["strict"], m["script"], m["edits"], m["bytes"], m["delivered"], m["terminal"],
+                       clause, row[2]), m)
         c.verdicts(res["VERDICT"], describe)
         c.traces += len(self.batch)
         self.done += len(self.batch)
@@ -101,7 +115,7 @@ class Runner:
 
 
 def attack_cases(c, script_id, max_tamper):
-    consts = dict(BASE, NMsgs=6, MaxSwitch=2, MaxTamper=max_tamper, MaxChunk=100, SeqMod=1000, ScriptId=script_id)
+    consts = dict(BASE, NMsgs=6, MaxSwitch=2, MaxTamper=max_tamper, MaxChunk=100, SeqMod=1000, ScriptId=script_id, Modes=ALL_MODES)
     r = run_tlc("PacketLayer_Att", cfg_text(spec="ASpec", constants=consts, invariants=["EmitAtt", "PrefixOnly", "NoAlien"]),
                 c.work / "att", workers=1)
     if r.error or r.violated:
@@ -112,8 +126,8 @@ def attack_cases(c, script_id, max_tamper):
                       "distinct": r.distinct, "generated": r.generated, "depth": r.depth, "wall_s": round(r.wall, 1),
                       "expect": "holds", "violated": []})
     cases = {}
-    for _, strict, zl, atts, delivered, rstate in r.printed("ATT"):
-        cases.setdefault((strict, zl, tuple(tuple(a) for a in atts)), set()).add((tuple(delivered), rstate))
+    for _, strict, zl, modes, atts, delivered, rstate in r.printed("ATT"):
+        cases.setdefault((strict, zl, tuple(modes), tuple(tuple(a) for a in atts)), set()).add((tuple(delivered), rstate))
     return cases
 
 
@@ -146,17 +160,26 @@ def run(c):
     rnd = random.Random(c.seed)
     # ---- M: all placements of the attacker's actions; the same exploration also starts behaviours with a seeded
     # defect (no MAC check; MAC without sequence number), each of which must be noticed by a property
+    # (key epochs have a verification mode: classic = MAC compared after decryption, etm = before; a key switch may change it)
     if c.quick:
-        c.mc_holds("PacketLayer", cfg_text(constants=dict(BASE, NMsgs=3, MaxTamper=1), invariants=INV, properties=["StopsAtFirstBad"]),
-                   name="1 attack, 3 messages, 1 key switch")
+        c.mc_holds("PacketLayer", cfg_text(constants=dict(BASE, NMsgs=3, MaxTamper=1, Zlibs="@{FALSE}"), invariants=INV,
+                                           properties=["StopsAtFirstBad"]),
+                   name="1 attack, 3 messages, 1 key switch, modes classic/etm")
     else:
-        c.mc_holds("PacketLayer", cfg_text(constants=dict(BASE, NMsgs=3, MaxTamper=2), invariants=INV, properties=["StopsAtFirstBad"]),
-                   name="2 attacks, 3 messages, 1 key switch", timeout=1500)
-    r = c.mc_holds("PacketLayer", cfg_text(constants=dict(BASE, NMsgs=2, MaxTamper=1, Zlibs="@{FALSE}", Mutations=MUTANTS), invariants=INV),
+        c.mc_holds("PacketLayer", cfg_text(constants=dict(BASE, NMsgs=3, MaxTamper=2, Zlibs="@{FALSE}"), invariants=INV,
+                                           properties=["StopsAtFirstBad"]),
+                   name="2 attacks, 3 messages, 1 key switch, modes classic/etm", timeout=1500)
+        c.mc_holds("PacketLayer", cfg_text(constants=dict(BASE, NMsgs=3, MaxTamper=2, Modes={"classic"}), invariants=INV,
+                                           properties=["StopsAtFirstBad"]),
+                   name="2 attacks, 3 messages, 1 key switch, with compression", timeout=1500)
+    r = c.mc_holds("PacketLayer", cfg_text(constants=dict(BASE, NMsgs=1, MaxTamper=1, Zlibs="@{FALSE}", Stricts="@{TRUE}", Mutations=MUTANTS),
+                                           invariants=INV),
                    name="seeded defects %s" % sorted(MUTANTS), workers=1)
-    caught = {x[1]: x for x in r.printed("CAUGHT")}
-    if set(caught) != MUTANTS or not all(x[2] or x[3] for x in caught.values()):
-        raise Machinery("seeded defects not all noticed by PrefixOnly / NoAlien: %s" % list(caught.values()))
+    caught = {}
+    for x in r.printed("CAUGHT"):
+        caught.setdefault(x[1], set()).update(n for n, v in zip(("PrefixOnly", "NoAlien"), x[2:4]) if v)
+    if set(caught) != MUTANTS or not all(caught.values()):
+        raise Machinery("seeded defects not all noticed by PrefixOnly / NoAlien: %s" % caught)
 
     # ---- framing classes and their representative suites
     classes = collections.OrderedDict()
@@ -165,32 +188,36 @@ def run(c):
     R = Runner(c)
     R.rnd = rnd
 
-    # ---- RP: attacks enumerated by TLC, rendered on every class
+    # ---- RP: attacks enumerated by TLC (incl. the framing mode of every key epoch), rendered on suites of those modes
+    by_mode = {}
+    for s_ in P.suites(["none", "zlib"]):
+        by_mode.setdefault((P.mode_of(s_), s_[2] != "none"), []).append(s_)
     plans = [(1, 1)] if c.quick else [(1, 1), (2, 1), (4, 1), (1, 2)]
     n_rp = 0
     for script_id, k in plans:
         cases = attack_cases(c, script_id, k)
         keys = sorted(cases)
-        for cls, members in classes.items():
-            mine = [x for x in keys if x[1] == cls[4]]
-            if k > 1:
-                mine = rnd.sample(mine, min(len(mine), 200))
-            recs = {}
-            if c.quick:       # one strict-kex setting per class (alternating), both in the thorough tier
-                want = (list(classes).index(cls) + c.seed) % 2 == 0
-                mine = [x for x in mine if x[0] == want]
-            for strict, zl, atts in mine:
-                if strict not in recs:
-                    # payloads long enough for every region to extend beyond the first cipher block
-                    recs[strict] = P.Recorded(rnd.choice(members), rnd, SCRIPTS[script_id], strict,
-                                              lengths=[rnd.randint(13, 70) for _ in SCRIPTS[script_id]])
-                rec = recs[strict]
-                ops = render(rec, atts, rnd)
-                if ops is None:
-                    R.skipped += 1
-                    continue
-                R.run(rec, list(atts), ops, "tlc-attack")
-                n_rp += 1
+        if c.quick:
+            keys = [x for x in keys if x[0] == ((hash(x[2]) + x[1] + c.seed) % 2 == 0)]     # one strict-kex setting per mode sequence
+        elif k > 1:
+            keys = rnd.sample(keys, min(len(keys), 9000))
+        recs = {}
+        for strict, zl, modes, atts in keys:
+            rk = (strict, zl, modes)
+            if rk not in recs or recs[rk][1] >= 18:        # a fresh recording (other suites of these modes) every 18 attacks
+                su = [rnd.choice(by_mode[(m, zl)]) for m in modes]
+                su = [su[0]] + [x[:2] + (su[0][2],) for x in su[1:]]          # compression stays what it is
+                # payloads long enough for every region to extend beyond the first cipher block
+                recs[rk] = [P.Recorded(su[0], rnd, SCRIPTS[script_id], strict, lengths=[rnd.randint(13, 70) for _ in SCRIPTS[script_id]],
+                                       later=su[1:]), 0]
+            recs[rk][1] += 1
+            rec = recs[rk][0]
+            ops = render(rec, atts, rnd)
+            if ops is None:
+                R.skipped += 1
+                continue
+            R.run(rec, list(atts), ops, "tlc-attack")
+            n_rp += 1
 
     # ---- TV 1: every byte position
     order = list(classes)
@@ -198,8 +225,11 @@ def run(c):
     chosen = order[:2] if c.quick else order
     n_bytes = 0
     for cls in chosen:
+        # the class under test is the epoch AFTER a key switch on the same Packetizer from a suite of another mode
         suite = rnd.choice(classes[cls])
-        rec = P.Recorded(suite, rnd, "SSKSSS", rnd.random() < 0.5, lengths=[rnd.randint(1, 24), rnd.randint(1, 24), 40, 1, rnd.randint(1, 24)])
+        first = rnd.choice([x for x in P.suites([suite[2]]) if P.mode_of(x) != P.mode_of(suite)])
+        rec = P.Recorded(first, rnd, "SSKSSS", rnd.random() < 0.5, lengths=[rnd.randint(1, 24), rnd.randint(1, 24), 40, 1, rnd.randint(1, 24)],
+                         later=[suite])
         for i, p in enumerate(rec.pkts, 1):
             for off in range(len(p.raw)):
                 reg = semantic_region(rec, p, off)
@@ -228,7 +258,12 @@ def run(c):
         script = "".join(rnd.choice("SSSK") for _ in range(rnd.randint(3, 7)))
         if "S" not in script:
             script += "S"
-        rec = P.Recorded(suite, rnd, script, rnd.random() < 0.5)
+        # every key switch may move to other algorithms (compression stays)
+        later = [rnd.choice(all_suites)[:2] + (suite[2],) if rnd.random() < 0.7 else None for _ in range(script.count("K"))]
+        prev = suite
+        for j, x in enumerate(later):
+            later[j] = prev = x or prev
+        rec = P.Recorded(suite, rnd, script, rnd.random() < 0.5, later=later)
         cur = list(range(len(rec.pkts)))      # which recorded packet sits at each position of the edited stream
         spec_e, conc = [], []
         for _ in range(rnd.randint(2, 4)):
@@ -262,12 +297,12 @@ def run(c):
     R.flush()
 
     # every region of every class must have been hit (quick: by the TLC-enumerated attacks)
-    for cls in classes:
+    for cls in (list(classes) if not c.quick else []) + sorted(ALL_MODES):      # quick: every region of every mode
         missing = {"length", "padlen", "payload", "padding", "mac"} - R.regions_hit[cls]
-        if cls[0] == "cbc" and cls[2] == "classic":
+        if isinstance(cls, tuple) and cls[0] == "cbc" and cls[2] == "classic":
             missing -= {"padlen"}          # cannot be changed without changing the (encrypted) length block
         if missing:
-            raise Machinery("no edit hit region(s) %s of framing class %s" % (sorted(missing), cls))
+            raise Machinery("no edit hit region(s) %s of %s" % (sorted(missing), cls))
     if R.terminals.get("EOF", 0) == 0 or sum(v for k, v in R.terminals.items() if k != "EOF") == 0:
         raise Machinery("terminal conditions not exercised: %s" % dict(R.terminals))
     c.extra["framing_classes"] = len(classes)
@@ -277,10 +312,12 @@ def run(c):
     c.extra["tlc_attacks_rendered"] = n_rp
     c.extra["tlc_attacks_not_renderable"] = R.skipped
     c.extra["exhaustive"] = not c.quick
-    c.rule = ("(1) every attack sequence TLC enumerates on a scripted stream (1 attack: Flip x 5 regions, DelByte, InsByte, Drop, Replay, Swap, "
-              "Cut x every packet; thorough: 3 scripts + sampled 2-attack sequences) rendered on each of the %d framing classes, strict kex on/off; "
-              "(2) every byte offset of a recorded 6-packet stream (incl. an encrypted NEWKEYS) x {flip, delete, insert, cut} for %s classes + every "
-              "packet drop/replay/swap; (3) seeded 2-4 fault edits over all suites.  distinct = distinct (stage, framing class, strict, script, "
+    c.rule = ("(1) every attack sequence TLC enumerates on a scripted stream with a key switch, for every sequence of framing modes of the key "
+              "epochs (1 attack: Flip x 5 regions, DelByte, InsByte, Drop, Replay, Swap, Cut x every packet; thorough: 3 scripts + sampled "
+              "2-attack sequences) rendered on random suites of those modes out of the %d framing classes, strict kex on/off; "
+              "(2) every byte offset of a recorded 6-packet stream (incl. an encrypted NEWKEYS that switches the same Packetizers from a suite of "
+              "another mode to the class under test) x {flip, delete, insert, cut} for %s classes + every "
+              "packet drop/replay/swap; (3) seeded 2-4 fault edits over all suites, algorithms changing at key switches.  distinct = distinct (stage, framing class, strict, script, "
               "concrete byte edit)" % (len(classes), "2 seed-chosen" if c.quick else "all"))
     c.assumptions = ["the attacker acts after encryption is active (the plaintext initial NEWKEYS is not edited)",
                      "sequence numbers do not wrap within a stream (2^32 packets)",
